@@ -20,6 +20,35 @@ type desc struct {
 	Chunk int        `json:"chunk"`
 }
 
+// fileDesc is the replayable description of a file-transfer case.
+type fileDesc struct {
+	Case *ss.Case `json:"file_case"`
+}
+
+// fileOracle: every PutFile phase must succeed and the paired GetFile must write the same bytes.
+func fileOracle(cs *ss.Case, obs *ss.Obs) error {
+	for pi, po := range obs.Phases {
+		if po == nil || pi >= len(cs.Steps) || len(cs.Steps[pi].SOps) != 1 || cs.Steps[pi].SOps[0].Op != "putfile" {
+			continue
+		}
+		want := cs.Steps[pi].SOps[0].D.Bytes()
+		if len(po.SErr) != 1 || po.SErr[0] {
+			return fmt.Errorf("PutFile of %d bytes failed: %v", len(want), po.SErrTxt)
+		}
+		if len(po.RRes) != 1 || !po.RRes[0].OK {
+			e := ""
+			if len(po.RRes) > 0 {
+				e = po.RRes[0].Err
+			}
+			return fmt.Errorf("a file of %d bytes was sent by PutFile, GetFile failed: %s", len(want), e)
+		}
+		if !bytes.Equal(po.RRes[0].Data, want) {
+			return fmt.Errorf("a file of %d bytes was sent by PutFile, GetFile wrote %d different bytes", len(want), len(po.RRes[0].Data))
+		}
+	}
+	return nil
+}
+
 func build(d *desc) *ss.Case {
 	c := &ss.Case{Setup: d.Setup}
 	for p, msgs := range d.Msgs {
@@ -237,6 +266,42 @@ func gen(c *core.Ctx) error {
 		try(d)
 		c.Count("buffered-mixed-sizes")
 	}
+	// 2d. file transfer: PutFile on one end, GetFile on the other (sizes around the 64 KiB read buffer),
+	// between other traffic, both directions, plaintext and AES-GCM
+	fsz := []int{0, 1, 7, 65535, 65536, 65537, 131072, 200001}
+	if !c.Quick() {
+		fsz = append(fsz, 8, 4, 666, 131071, 131073, 196608, 1<<20, 1<<20+5)
+	}
+	for i, n := range fsz {
+		for si, su := range setups() {
+			if c.Quick() && n > 70000 && si == 2 {
+				continue
+			}
+			su.ReadMax = []int{0, 4096, 1000}[(i+si)%3]
+			su.Ctx = (i+si)%2 == 0
+			aSends := (i+si)%2 == 0
+			cs := &ss.Case{Setup: su, Steps: []ss.Step{
+				{Kind: "phase", ASends: aSends, SOps: ss.Msg{Kind: "direct", Chunks: []ss.Data{ss.Pay(3, 5)}}.SOps(), ROps: []ss.ROp{{Op: "complete"}}},
+				{Kind: "phase", ASends: aSends, SOps: []ss.SOp{{Op: "putfile", D: ss.Pay(i+11, n)}}, ROps: []ss.ROp{{Op: "getfile"}}},
+				{Kind: "phase", ASends: !aSends, SOps: []ss.SOp{{Op: "putfile", D: ss.Pay(i+5, n/2)}}, ROps: []ss.ROp{{Op: "getfile"}}},
+				{Kind: "phase", ASends: aSends, SOps: ss.Msg{Kind: "direct", Chunks: []ss.Data{ss.Pay(4, 2)}}.SOps(), ROps: []ss.ROp{{Op: "complete"}}},
+			}}
+			obs, term := ss.Exec(cs)
+			c.OracleCheck()
+			fd := &fileDesc{Case: cs}
+			if obs.SetupErr != nil {
+				c.OracleFail("roundtrip", "file transfer setup: "+obs.SetupErr.Error(), fd)
+				continue
+			}
+			c.AddCaseW(term, fd, 1+n/2000)
+			if err := fileOracle(cs, obs); err != nil {
+				c.OracleFail("roundtrip", err.Error(), fd)
+			}
+			js, _ := json.Marshal(fd)
+			c.Nontrivial(string(js))
+			c.Count("file-transfer")
+		}
+	}
 	// 3. random multi-message, multi-phase histories
 	nRand := 60
 	if !c.Quick() {
@@ -297,6 +362,14 @@ func replay(raw json.RawMessage) error {
 	var t typedCase
 	if err := json.Unmarshal(raw, &t); err == nil && t.Typed {
 		return runTyped(t)
+	}
+	var fd fileDesc
+	if err := json.Unmarshal(raw, &fd); err == nil && fd.Case != nil {
+		obs, _ := ss.Exec(fd.Case)
+		if obs.SetupErr != nil {
+			return obs.SetupErr
+		}
+		return fileOracle(fd.Case, obs)
 	}
 	var d desc
 	if err := json.Unmarshal(raw, &d); err != nil {
